@@ -1,52 +1,59 @@
 (* C04 / C03 / C05 / C10 - translator obligations: the linker_writer.rs templates (ROM bookkeeping, header
    pieces, ADDR, ABSOLUTE, class size, MAX, FILL, version comment) *)
-From Slinky Require Import Model.Types Model.Generated Model.Style Model.Script Proofs.Tables.
+From Slinky Require Import Model.Types Model.Generated Model.Style Model.Script Proofs.TablesC04.
 Local Open Scope string_scope.
 
 Theorem C04_tables_linker_writer :
-  fmt_lw = [["/* Generated by slinky "; "."; "."; " */"]; ["ENTRY("; ");"]; ["_gp = 0x"; ";"]; [""; " - "; ""];
-            ["*("; ");"]; ["0x"; ""]; ["ADDR(."; ")"]; ["__romPos += SIZEOF(."; ");"]; ["_gp = 0x"; ";"];
-            [". = 0x"; ";"]; ["ABSOLUTE("; " - "; ")"]; [""; "_"; ""]; [""; "_"; ""]; [". + 0x"; ""];
-            ["."; ""; ""]; [" 0x"; ""]; [" "; ""]; [" "; ""]; [" "; ""]; [" : AT("; ")"]; [" SUBALIGN("; ")"];
-            [""; ""; "("; ""; ")"; ";"]; [""; ""; ":"; "("; ""; ")"; ";"]; [". += 0x"; ";"]; ["FILL(0x"; ");"];
-            [""; ""; " :"]; [" SUBALIGN("; ")"]; ["FILL(0x"; ");"]].
-Proof. exact fmt_lw_expected. Qed.
+  t_sb_write_symbol_max_self_0_spec = [""; ""; ""] /\
+  t_lw_new_0_spec = [""; ""; ""] /\
+  t_lw_end_sections_0_spec = [""; ""] /\
+  t_lw_add_segment_0_spec = [":08X"] /\
+  t_lw_add_segment_1_spec = [""] /\
+  t_lw_add_segment_2_spec = [""] /\
+  t_lw_add_single_segment_1_spec = [":08X"] /\
+  t_lw_write_sym_end_size_0_spec = [""; ""] /\
+  t_lw_write_segment_start_0_spec = [""; ""] /\
+  t_lw_write_segment_start_5_spec = [""] /\
+  t_lw_write_segment_start_6_spec = [""] /\
+  t_lw_write_segment_0_spec = [":08X"] /\
+  t_lw_write_single_segment_2_spec = [":08X"].
+Proof. exact specs_C04. Qed.
 
 Theorem C04_tables_romadd : forall ind name,
-  render_stmt ind (SRomAdd ("." ++ name)) = [indent_str ind ++ fmt (tpl fmt_lw 7) [name]].
+  render_stmt ind (SRomAdd ("." ++ name)) = [indent_str ind ++ fmt t_lw_add_segment_2 [name]].
 Proof. exact lw_romadd. Qed.
 
 Theorem C04_tables_header_alloc : forall name addr rom sub,
   render_header ("." ++ name) addr (Some rom) false sub =
-  fmt (tpl fmt_lw 14) [name; ""] ++
+  fmt t_lw_write_segment_start_0 [name; ""] ++
   match addr with Some e => " " ++ render_expr e | None => "" end ++
-  fmt (tpl fmt_lw 19) [rom] ++
-  match sub with Some n => fmt (tpl fmt_lw 20) [dec_of_N n] | None => "" end.
+  fmt t_lw_write_segment_start_5 [rom] ++
+  match sub with Some n => fmt t_lw_write_segment_start_6 [dec_of_N n] | None => "" end.
 Proof. exact lw_header_alloc. Qed.
 
-Theorem C04_tables_addr : forall name, render_expr (EAddr ("." ++ name)) = fmt (tpl fmt_lw 6) [name].
+Theorem C04_tables_addr : forall name, render_expr (EAddr ("." ++ name)) = fmt t_lw_add_segment_1 [name].
 Proof. exact lw_addr. Qed.
 
-Theorem C04_tables_absolute : forall a b, render_expr (EAbsSub a b) = fmt (tpl fmt_lw 10) [a; b].
+Theorem C04_tables_absolute : forall a b, render_expr (EAbsSub a b) = fmt t_lw_write_sym_end_size_0 [a; b].
 Proof. exact lw_absolute. Qed.
 
-Theorem C04_tables_class_size : forall a b, render_expr (ESub a b) = fmt (tpl fmt_lw 3) [a; b].
+Theorem C04_tables_class_size : forall a b, render_expr (ESub a b) = fmt t_lw_end_sections_0 [a; b].
 Proof. exact lw_class_size. Qed.
 
 Theorem C04_tables_max : forall ind sym other,
-  render_stmt ind (SMaxSelf sym other) = [indent_str ind ++ fmt (tpl fmt_sb 6) [sym; sym; other]].
+  render_stmt ind (SMaxSelf sym other) = [indent_str ind ++ fmt t_sb_write_symbol_max_self_0 [sym; sym; other]].
 Proof. exact sb_max. Qed.
 
-Theorem C04_tables_fill : forall ind n, render_stmt ind (SFill n) = [indent_str ind ++ fmt (tpl fmt_lw 24) [hex8_of_N n]].
+Theorem C04_tables_fill : forall ind n, render_stmt ind (SFill n) = [indent_str ind ++ fmt t_lw_write_segment_0 [hex8_of_N n]].
 Proof. exact lw_fill. Qed.
 
 Theorem C04_tables_dot_set : forall ind v,
-  render_stmt ind (SAssign false false false "." (EHex8 v)) = [indent_str ind ++ fmt (tpl fmt_lw 9) [hex8_of_N v]].
+  render_stmt ind (SAssign false false false "." (EHex8 v)) = [indent_str ind ++ fmt t_lw_add_single_segment_1 [hex8_of_N v]].
 Proof. exact lw_dot_set. Qed.
 
 Theorem C04_tables_version_comment : forall ind,
   render_stmt ind (SComment version_comment_text) =
-  [indent_str ind ++ fmt (tpl fmt_lw 0) [dec_of_N version_major; dec_of_N version_minor; dec_of_N version_patch]].
+  [indent_str ind ++ fmt t_lw_new_0 [dec_of_N version_major; dec_of_N version_minor; dec_of_N version_patch]].
 Proof. exact lw_version_comment. Qed.
 
 Print Assumptions C04_tables_linker_writer.
